@@ -437,6 +437,10 @@ def _cells(ctx, b, local, adt=None):
                 cells[nm + "/Some"] = (tb, ts[1])
         else:
             cells[nm] = (x, tb)
+    # variants without an arm of their own are converted by the `_` arm
+    o = t.get("o")
+    if o is not None and o >= 0 and b.term(o)["k"] != "unreachable":
+        cells["_otherwise"] = (x, o)
     return cells
 
 
@@ -453,6 +457,9 @@ def _cell_regions(b, cells):
     return {name: r - common for name, r in reach.items()}
 
 
+_CTOR_PROG = None
+
+
 def _built(b, region, rx, group=1):
     out = set()
     for y in region:
@@ -463,6 +470,19 @@ def _built(b, region, rx, group=1):
                 m = rx.match(st["r"]["a"])
                 if m:
                     out.add(m.group(m.lastindex))
+        # a constructor function of the frame type (`RespFrame::bulk_string(..)`, `::ok()`,
+        # `::null_array()`): what it builds is what the arm builds
+        t = b.term(y)
+        if t["k"] == "call" and _CTOR_PROG is not None and rx is RESPV:
+            c = callee(t)
+            cb = _CTOR_PROG.bodies.get(c)
+            if cb is not None and c.startswith("protocol::resp::RespFrame::") and (cb.locals[0] or "") == "protocol::resp::RespFrame" and len(cb.bbs) <= 12:
+                for bb2 in cb.bbs:
+                    for st in bb2["s"]:
+                        if st["k"] == "=" and st["r"]["k"] == "agg":
+                            m = rx.match(st["r"]["a"])
+                            if m:
+                                out.add(m.group(m.lastindex))
     return out
 
 
@@ -472,6 +492,12 @@ ROLE_L2R = LE + "lua_value_to_resp"
 
 
 def rule_conv(ctx, R):
+    global _CTOR_PROG
+    _CTOR_PROG = ctx.prog
+    return _rule_conv(ctx, R)
+
+
+def _rule_conv(ctx, R):
     # ---- RESP -> Lua
     b = None; cells = None
     for fn_, fb in sorted(ctx.prog.bodies.items()):
@@ -549,12 +575,12 @@ def rule_conv(ctx, R):
     m = 0
     regions = _cell_regions(b, cells)
     for cell, ref in sorted(L2R_REF.items()):
-        if cell not in cells:
+        if cell not in cells and "_otherwise" not in cells:
             R.inst(ROLE_L2R, "lua->resp:" + cell, {"arm": None, "cells": sorted(cells)})
             R.finding(ROLE_L2R, "lua->resp:%s:no-arm" % cell, "no conversion arm for Lua %s values" % cell, b.loc()); continue
         m += 1
-        sw, tb = cells[cell]
-        reg = regions[cell]
+        sw, tb = cells.get(cell) or cells["_otherwise"]
+        reg = regions.get(cell) or regions["_otherwise"]
         got = _built(b, reg, RESPV)
         R.inst(ROLE_L2R, "lua->resp:" + cell, {"builds": sorted(got), "reference": sorted(ref)})
         if got != ref:
